@@ -119,7 +119,7 @@ def run(tier, seed):
             plans.append({"id": "train%d" % k, "steps": with_inputs(HAPPY[:5] + [{"train": items}] + after + HAPPY[:5], k)})
         pp = os.path.join(wd, "plans.ndjson")
         activation.write_plans(pp, plans)
-        trace, blobs, decoded, dec = activation.run_and_decode(wd, pp, seed)
+        trace, blobs, decoded, dec = activation.run_and_decode(wd, pp, seed, v=v, key="activation:abort")
         sides = activation.blob_sides(blobs)
         bad_srv = [i for i, d in enumerate(dec) if sides[i] == "s" and not d.get("ok")]
         if bad_srv:
